@@ -56,9 +56,12 @@ type Contract struct {
 	Pure      bool
 	Uses      []string
 	Invs      map[int][]*SExpr
+	Steps     map[int][]*SExpr
 	Ghosts    []AtClause
 	At        map[string][]AtClause
 	Callsites []CallsiteClause
+	Modifies  []string // frame: the only heap locations the function may write (Type.field | elems | maps | ptrs)
+	HasFrame  bool
 	Stable    []string // heap fields (Type.field) assumed not to be written by any callee of this function
 	RawSMT    []string
 	Replay    string
@@ -251,6 +254,13 @@ func (cs *ContractSet) loadFile(path, pkgPath string) error {
 				cur.NoPanic = true
 			case "pure":
 				cur.Pure = true
+			case "modifies":
+				cur.HasFrame = true
+				for _, f := range strings.FieldsFunc(rest, func(r rune) bool { return r == ',' || r == ' ' }) {
+					if f != "nothing" {
+						cur.Modifies = append(cur.Modifies, f)
+					}
+				}
 			case "safe":
 				cur.Safe = true
 			case "stable":
@@ -334,12 +344,20 @@ func (cs *ContractSet) loadFile(path, pkgPath string) error {
 					return fail(i, "bad loop clause")
 				}
 				body := strings.TrimSpace(parts[1])
-				body = strings.TrimSpace(strings.TrimPrefix(body, "invariant"))
+				isStep := strings.HasPrefix(body, "step ")
+				body = strings.TrimSpace(strings.TrimPrefix(strings.TrimPrefix(body, "step"), "invariant"))
 				x, err := parse(body)
 				if err != nil {
 					return err
 				}
-				cur.Invs[n] = append(cur.Invs[n], x)
+				if isStep {
+					if cur.Steps == nil {
+						cur.Steps = map[int][]*SExpr{}
+					}
+					cur.Steps[n] = append(cur.Steps[n], x)
+				} else {
+					cur.Invs[n] = append(cur.Invs[n], x)
+				}
 			default:
 				return fail(i, "unknown clause: %s", line)
 			}
